@@ -116,3 +116,14 @@ for p in list(NOT_APPLICABLE):
         del NOT_APPLICABLE[p]
 for e in ENGINES:
     e['serves_properties'] = sorted(CHECKS)
+
+_c('C15', 'model_checking',
+   'explicit-state breadth-first search over session histories with digest de-duplication; probe menu and liveness horizon in every state, on the real servers',
+   'Breadth-first search over an 11-action alphabet (open, pending poll, posts, upgrade steps, send, tick, vanish) to depth 4 (thorough 6) with canonical-digest de-duplication; in every distinct state 33 HTTP probes (reduced admission product, malformed bodies: bad digit, bad base64, bad UTF-8, deep JSON, 17/1000 segments, oversize, form bodies) and 6 application calls are issued on a fresh replay, the world is run 8 s of virtual time further, and the WSGI/ASGI validators, the status set {200,400,401,405}, escaping exceptions and completion of every request and call are checked.',
+   'Default schedule; the digest abstracts sessions, queues, pending requests, events and next timer; upgrade requests exempt from completion.',
+   'DESIGN.md 5 C15')
+for p in list(NOT_APPLICABLE):
+    if p in CHECKS:
+        del NOT_APPLICABLE[p]
+for e in ENGINES:
+    e['serves_properties'] = sorted(CHECKS)
